@@ -1,0 +1,20 @@
+//go:build verif
+
+// Contracts for the pverif VC generator (see /verif/DESIGN.md). Comment-only.
+package symbolz
+
+// C12: functions created from the symbol service's answers get ids above every id already in the profile,
+// for every mapping symbolized in the same run.
+//@ func nextFunctionID arith bv
+//@   requires p != nil
+//@   requires forall i int :: 0 <= i && i < len(p.Function) ==> p.Function[i] != nil && p.Function[i].ID < 18446744073709551615
+//@   ensures above: forall i int :: 0 <= i && i < len(p.Function) ==> p.Function[i].ID < result
+//@   loop 1
+//@     invariant 0 <= $i && $i <= len(p.Function)
+//@     invariant forall i int :: 0 <= i && i < $i ==> p.Function[i].ID <= maxID
+//@     invariant maxID < 18446744073709551615
+//@ func symbolizeMapping arith int nosafety
+//@   requires p != nil
+//@   requires forall i int :: 0 <= i && i < len(p.Function) ==> p.Function[i] != nil && p.Function[i].ID < 18446744073709551615
+//@   loop 2
+//@     invariant ids_below_next: p != nil && forall i int :: 0 <= i && i < len(p.Function) ==> p.Function[i] != nil && p.Function[i].ID < nextID
